@@ -1,6 +1,7 @@
 package commitlog
 
 import (
+	"io"
 	"sync"
 	"time"
 
@@ -90,11 +91,14 @@ func (c *compactCleaner) compact(hw int64, segments []*segment) ([]*segment,
 	// scanning keys and retaining only the latest.
 	// TODO: Implement option for configuring minimum compaction lag.
 	var (
-		compacted  = make([]*segment, 0, len(segments))
-		epochCache = newLeaderEpochCacheNoFile(c.Name, c.Logger)
-		removed    = 0
-		keyOffsets = c.scanKeys(hw, segments)
+		compacted       = make([]*segment, 0, len(segments))
+		epochCache      = newLeaderEpochCacheNoFile(c.Name, c.Logger)
+		removed         = 0
+		keyOffsets, err = c.scanKeys(hw, segments)
 	)
+	if err != nil {
+		return nil, nil, 0, err
+	}
 
 	// Write new segments. Skip the last segment since we will not compact it.
 	// TODO: Join segments that are below the bytes limit.
@@ -147,8 +151,14 @@ func (c *compactCleaner) cleanSegment(seg *segment, keyOffsets *sync.Map, hw int
 	var (
 		ss      = newSegmentScanner(seg)
 		removed = 0
+		scanErr error
 	)
-	for ms, _, err := ss.Scan(); err == nil; ms, _, err = ss.Scan() {
+	for {
+		ms, _, err := ss.Scan()
+		if err != nil {
+			scanErr = err
+			break
+		}
 		var (
 			offset       = ms.Offset()
 			key          = ms.Message().Key()
@@ -177,6 +187,13 @@ func (c *compactCleaner) cleanSegment(seg *segment, keyOffsets *sync.Map, hw int
 			removed++
 		}
 	}
+	if scanErr != io.EOF {
+		// The segment could not be read to its end, e.g. because the log was
+		// closed underneath the cleaner. The cleaned segment is incomplete,
+		// so it must not replace the original.
+		cleaned.Delete() // nolint: errcheck
+		return nil, removed, errors.Wrap(scanErr, "failed to read segment")
+	}
 
 	if verifhook.Enabled {
 		if err := verifhook.Point("compact.afterWriteCleaned"); err != nil {
@@ -194,12 +211,13 @@ func (c *compactCleaner) cleanSegment(seg *segment, keyOffsets *sync.Map, hw int
 	return cleaned, removed, nil
 }
 
-func (c *compactCleaner) scanKeys(hw int64, segments []*segment) *sync.Map {
+func (c *compactCleaner) scanKeys(hw int64, segments []*segment) (*sync.Map, error) {
 	var (
 		wg            sync.WaitGroup
 		keyOffsets    = new(sync.Map)
 		numGoroutines = c.MaxGoroutines
 		segmentC      = make(chan *segment, len(segments))
+		errC          = make(chan error, len(segments))
 	)
 	if len(segments) < numGoroutines {
 		numGoroutines = len(segments)
@@ -207,7 +225,7 @@ func (c *compactCleaner) scanKeys(hw int64, segments []*segment) *sync.Map {
 
 	wg.Add(numGoroutines)
 	for i := 0; i < numGoroutines; i++ {
-		go c.scanSegments(hw, segmentC, &wg, keyOffsets)
+		go c.scanSegments(hw, segmentC, &wg, keyOffsets, errC)
 	}
 
 	for _, seg := range segments {
@@ -216,14 +234,29 @@ func (c *compactCleaner) scanKeys(hw int64, segments []*segment) *sync.Map {
 	close(segmentC)
 
 	wg.Wait()
-	return keyOffsets
+	select {
+	case err := <-errC:
+		// A segment could not be read to its end. Keys whose latest message
+		// was not seen would have all their messages removed, so give up.
+		return nil, errors.Wrap(err, "failed to scan segment keys")
+	default:
+	}
+	return keyOffsets, nil
 }
 
-func (c *compactCleaner) scanSegments(hw int64, ch <-chan *segment, wg *sync.WaitGroup, keyOffsets *sync.Map) {
+func (c *compactCleaner) scanSegments(hw int64, ch <-chan *segment, wg *sync.WaitGroup, keyOffsets *sync.Map,
+	errC chan<- error) {
 LOOP:
 	for seg := range ch {
 		ss := newSegmentScanner(seg)
-		for ms, _, err := ss.Scan(); err == nil; ms, _, err = ss.Scan() {
+		for {
+			ms, _, err := ss.Scan()
+			if err != nil {
+				if err != io.EOF {
+					errC <- err
+				}
+				break
+			}
 			offset := ms.Offset()
 			if offset > hw {
 				break LOOP
